@@ -351,6 +351,12 @@ def operator_cases(draw):
         off = (round(draw(st.floats(-1.2, 1.2)) * R), round(draw(st.floats(-1.2, 1.2)) * R))
         b = draw(S.star_curve(nk, (float(off[0]), float(off[1])), 0.4 * R, R, (3, 6), (1,), draw(st.booleans())))
     ops = draw(st.lists(st.sampled_from(["|", "&", "-", "^"]), min_size=1, max_size=2, unique=True))
+    if nk in ("int", "frac") and draw(st.integers(0, 3)) == 0:
+        # the same exact drawing in millimetres (edges ~1e-3): nothing but the
+        # size changes, every crossing parameter is the same rational
+        f = F(1, 400 * int(R))
+        a = rg.curve_map(lib.tup(a), lambda p: (p[0] * f, p[1] * f))
+        b = rg.curve_map(lib.tup(b), lambda p: (p[0] * f, p[1] * f))
     return {"a": a, "b": b, "ops": ops}
 
 
